@@ -84,6 +84,7 @@ theorem runHandler_nomark : ∀ (h : Handler) (k : K), NoMarkK k → NoMarkK (ru
   | .pass id, k, hk => fun r t => by simp [runHandler, hk _ _]
   | .respond id st, k, _ => fun r t => by simp [runHandler, Out.isMarker]
   | .rewrite id p, k, hk => fun r t => by simp [runHandler, hk _ _]
+  | .strip, k, hk => fun r t => by simp [runHandler, hk _ _]
   | .fail id st, k, _ => fun r t => by simp [runHandler, Out.isMarker]
   | .raise src, k, _ => fun r t => by simp [runHandler, Out.isMarker]
   | .invoke n, k, _ => fun r t => by simp [runHandler, Out.isMarker]
@@ -145,6 +146,7 @@ theorem specHandler_no_marker : ∀ (h : Handler) (r : Req) (t : Trace), (specHa
   | .pass id, r, t => by simp [specHandler, Res.NoMarker]
   | .respond id st, r, t => by simp [specHandler, Res.NoMarker]
   | .rewrite id p, r, t => by simp [specHandler, Res.NoMarker]
+  | .strip, r, t => by simp [specHandler, Res.NoMarker]
   | .fail id st, r, t => by simp [specHandler, Res.NoMarker]
   | .raise src, r, t => by simp [specHandler, Res.NoMarker]
   | .invoke n, r, t => by simp [specHandler, Res.NoMarker]
@@ -207,6 +209,7 @@ theorem h_ok : ∀ (h : Handler) (k : K) (r : Req) (t : Trace),
   | .pass id, k, r, t => by simp [runHandler, specHandler, Res.bind]
   | .respond id st, k, r, t => by simp [runHandler, specHandler, Res.bind]
   | .rewrite id p, k, r, t => by simp [runHandler, specHandler, Res.bind]
+  | .strip, k, r, t => by simp [runHandler, specHandler, Res.bind]
   | .fail id st, k, r, t => by simp [runHandler, specHandler, Res.bind]
   | .raise src, k, r, t => by simp [runHandler, specHandler, Res.bind]
   | .invoke n, k, r, t => by simp [runHandler, specHandler, Res.bind]
@@ -364,6 +367,7 @@ theorem specHandler_keeps : ∀ (h : Handler) (r : Req) (t : Trace), (specHandle
   | .pass id, r, t => by simp [specHandler, Res.KeepsGroups]
   | .respond id st, r, t => by simp [specHandler, Res.KeepsGroups]
   | .rewrite id p, r, t => by simp [specHandler, Res.KeepsGroups]
+  | .strip, r, t => by simp [specHandler, Res.KeepsGroups]
   | .fail id st, r, t => by simp [specHandler, Res.KeepsGroups]
   | .raise src, r, t => by simp [specHandler, Res.KeepsGroups]
   | .invoke n, r, t => by simp [specHandler, Res.KeepsGroups]
@@ -457,6 +461,7 @@ theorem specHandler_olds : ∀ (h : Handler) (r : Req) (t : Trace), (specHandler
   | .pass id, r, t => by simp [specHandler, Res.OldsGE]
   | .respond id st, r, t => by simp [specHandler, Res.OldsGE]
   | .rewrite id p, r, t => by simp [specHandler, Res.OldsGE]
+  | .strip, r, t => by simp [specHandler, Res.OldsGE]
   | .fail id st, r, t => by simp [specHandler, Res.OldsGE]
   | .raise src, r, t => by simp [specHandler, Res.OldsGE]
   | .invoke n, r, t => by simp [specHandler, Res.OldsGE]
@@ -580,6 +585,8 @@ theorem runHandler_pok : ∀ (h : Handler) (k : K), KPlaceholderOk k → KPlaceh
     simp only [runHandler]; exact hk r _ hr (snoc_ok ht (ev_ok id r hr))
   | .respond id st, k, _ => fun r t hr ht => by
     simp only [runHandler]; exact pok_done _ (snoc_ok ht (ev_ok id r hr))
+  | .strip, k, hk => fun r t hr ht => by
+    simp only [runHandler]; exact hk _ _ hr ht
   | .rewrite id p, k, hk => fun r t hr ht => by
     simp only [runHandler]; exact hk _ _ hr (snoc_ok ht (ev_ok id r hr))
   | .fail id st, k, _ => fun r t hr ht => by
@@ -697,6 +704,7 @@ theorem hInvGt_resGt : ∀ (env : List Route) (m b : Nat) (h : Handler), b ≤ m
   | _, _, _, .pass _, _, _ => by simp [hResGt]
   | _, _, _, .respond _ _, _, _ => by simp [hResGt]
   | _, _, _, .rewrite _ _, _, _ => by simp [hResGt]
+  | _, _, _, .strip, _, _ => by simp [hResGt]
   | _, _, _, .fail _ _, _, _ => by simp [hResGt]
   | _, _, _, .raise _, _, _ => by simp [hResGt]
   | _, _, _, .answer _, _, _ => by simp [hResGt]
@@ -740,6 +748,7 @@ theorem inlineH_step : ∀ (env : List Route) (b : Nat) (h : Handler), namedVali
   | _, _, .pass _, _, _ => by simp [inlineH, hResGt]
   | _, _, .respond _ _, _, _ => by simp [inlineH, hResGt]
   | _, _, .rewrite _ _, _, _ => by simp [inlineH, hResGt]
+  | _, _, .strip, _, _ => by simp [inlineH, hResGt]
   | _, _, .fail _ _, _, _ => by simp [inlineH, hResGt]
   | _, _, .raise _, _, _ => by simp [inlineH, hResGt]
   | _, _, .answer _, _, _ => by simp [inlineH, hResGt]
@@ -772,6 +781,7 @@ theorem hResGt_zero : ∀ (env : List Route) (h : Handler), hResGt env 0 h = tru
   | _, .pass _ => by simp [hResGt]
   | _, .respond _ _ => by simp [hResGt]
   | _, .rewrite _ _ => by simp [hResGt]
+  | _, .strip => by simp [hResGt]
   | _, .fail _ _ => by simp [hResGt]
   | _, .raise _ => by simp [hResGt]
   | _, .answer _ => by simp [hResGt]
@@ -807,6 +817,7 @@ theorem hResolved : ∀ (env : List Route) (h : Handler), hResGt env env.length 
   | _, .pass _, _ => by simp [hUnresolved]
   | _, .respond _ _, _ => by simp [hUnresolved]
   | _, .rewrite _ _, _ => by simp [hUnresolved]
+  | _, .strip, _ => by simp [hUnresolved]
   | _, .fail _ _, _ => by simp [hUnresolved]
   | _, .raise _, _ => by simp [hUnresolved]
   | _, .answer _, _ => by simp [hUnresolved]
